@@ -1,5 +1,6 @@
 import CpModel.Proto
 import CpModel.Dispatch
+import CpModel.DispatchFn
 import CpModel.DispatchIO
 /-!
   Driver for C02 (default dispatcher / method dispatcher).  One case per line:
@@ -12,16 +13,109 @@ import CpModel.DispatchIO
     M:  <outcome> A=<N | _ | name,name…> P=<params>
   params = `_` | name~value,…   (request.params updates by popargs, in order; a later one wins)
   outcome = `H <id> <args>` | `NF` | `NA` | `E:<err>`
+
+  `find_handler` over an arbitrary dispatcher function (`CpModel.DispatchFn`), the function given as the table
+  of the calls the real `_cp_dispatch` objects were seen to make during this very request:
+
+    F <D|M> <method> <root> <noneattrs> <nodes> <sections> <path> <table>
+    table = `-` | entry;entry;…      entry = <dispatcher id>|<list before>|<ret: id | N | R (raised)>|<list after>|<params>
+    list  = `-` | name+name+…        params = `-` | name~value,…
+  Output as for D / M, followed by ` V=<iternames when the chosen trail entry was appended>` (`N` without handler).
+
+  Path rewriting in front of the dispatcher:
+
+    S <apps: - | text,text,…> <SCRIPT_NAME> <PATH_INFO>   ->  `N` | `<script name> <path info>`     (Tree.__call__)
+    T <apps> <path>                                        ->  `N` | `<script name>`                 (Tree.script_name)
+    V <domains: - | text~text,…> <domain> <path_info>      ->  `<path>`                              (VirtualHost)
+    X <path_info>                                          ->  `<path>`                              (XMLRPCDispatcher)
 -/
-open CpModel CpModel.Dispatch CpModel.DispatchIO
+open CpModel CpModel.Dispatch CpModel.DispatchFn CpModel.DispatchIO
 
 namespace Drv.C02
 
 def showOB : Option Bool → String
   | none => "N" | some true => "T" | some false => "F"
 
+def parseNames : String → Option (List Name) := parseList "+" parseName
+
+def parseParam (s : String) : Option (Name × Name) :=
+  match s.splitOn "~" with
+  | [k, v] => do pure (← parseName k, ← parseName v)
+  | _ => none
+
+def parseEntry (s : String) : Option (NodeId × List Name × Except Err DispOut) :=
+  match s.splitOn "|" with
+  | [d, before, ret, after, params] => do
+    let did ← d.toNat?
+    let b ← parseNames before
+    if ret == "R" then pure (did, b, .error .dispatchRaised)
+    else
+      let r ← parseOptId ret
+      let a ← parseNames after
+      let ps ← parseList "," parseParam params
+      pure (did, b, .ok ⟨r, a, ps⟩)
+  | _ => none
+
+def showRest (r : Option (List Name)) : String :=
+  match r with
+  | none => "N"
+  | some l => showNames l
+
+def stepF (kind meth root na nodes secs path table : String) : String :=
+  match parseApp root na nodes secs, Proto.untext? path, parseName meth, parseList ";" parseEntry table with
+  | some app, some p, some m, some tbl =>
+    let sem := semTable tbl
+    let fr := findHandlerF sem translate app p
+    let rest : Option (List Name) := match fr with
+      | .ok r => (r.found.bind fun f => r.rests[f.idx]?)
+      | .error _ => none
+    let ps := showParams (paramsF sem translate app (segments p))
+    if kind == "D" then
+      let ii := match fr with
+        | .ok r => r.isIndex
+        | .error _ => none
+      s!"{showOutcome (dispatchF sem translate app p)} I={showOB ii} P={ps} V={showRest rest}"
+    else if kind == "M" then
+      let r := methodDispatchF sem translate app p m
+      let a := match r.allow with
+        | none => "N"
+        | some l => showNames l
+      s!"{showOutcome r.outcome} A={a} P={ps} V={showRest rest}"
+    else "bad-op"
+  | _, _, _, _ => "bad-op"
+
+def parseTexts (s : String) : Option (List (List Char)) := parseList "," Proto.untext? s
+
+def parseDomain (s : String) : Option (List Char × List Char) :=
+  match s.splitOn "~" with
+  | [k, v] => do pure (← Proto.untext? k, ← Proto.untext? v)
+  | _ => none
+
 def step (line : String) : String :=
   match Proto.fields line with
+  | ["F", kind, meth, root, na, nodes, secs, path, table] => stepF kind meth root na nodes secs path table
+  | ["S", apps, sn0, pi] =>
+    match parseTexts apps, Proto.untext? sn0, Proto.untext? pi with
+    | some a, some s0, some p =>
+      match treeRoute a s0 p with
+      | none => "N"
+      | some (sn, rest) => s!"{Proto.text sn} {Proto.text rest}"
+    | _, _, _ => "bad-op"
+  | ["T", apps, path] =>
+    match parseTexts apps, Proto.untext? path with
+    | some a, some p =>
+      match scriptName a p with
+      | none => "N"
+      | some sn => Proto.text sn
+    | _, _ => "bad-op"
+  | ["V", domains, domain, pi] =>
+    match parseList "," parseDomain domains, Proto.untext? domain, Proto.untext? pi with
+    | some ds, some d, some p => Proto.text (vhostPath ds d p)
+    | _, _, _ => "bad-op"
+  | ["X", pi] =>
+    match Proto.untext? pi with
+    | some p => Proto.text (patchedPath p)
+    | none => "bad-op"
   | [kind, meth, root, na, nodes, secs, path] =>
     match parseApp root na nodes secs, Proto.untext? path, parseName meth with
     | some app, some p, some m =>
